@@ -59,6 +59,8 @@ def trivially_joins(f, a, b, limit=8):
     """blocks a and b reach a common block through blocks that only contain unit assignments, plain moves of
     a value between locals (`return regs` spelled as `_0 = regs; dest = move _0`), gotos and drops — and both
     ways move the same values (so an early stop yields what exhaustion yields)"""
+    dataless = set()
+
     def chain(x):
         seen = [x]
         moves = []
@@ -71,6 +73,13 @@ def trivially_joins(f, a, b, limit=8):
                     continue
                 rv = st['rv']
                 if rv['r'] == 'use' and rv['a']['o'] == 'const' and rv['a']['c'].get('ty') == '()':
+                    continue
+                dty = f.locals[st['pl']['l']]['ty']
+                if not st['pl']['p'] and (dty == '()' or ('ControlFlow<' in dty and dty.rstrip('>').endswith(('<()', ', ()')))):
+                    dataless.add(st['pl']['l'])      # the data-less outcome of a try_for_each: fine if nobody branches on it later
+                    continue
+                if not st['pl']['p'] and rv['r'] == 'discr' and rv['pl']['l'] in dataless:
+                    dataless.add(st['pl']['l'])
                     continue
                 if rv['r'] == 'use' and rv['a']['o'] in ('copy', 'move') and not st['pl']['p']:
                     moves.append(facts.show(facts.norm(f.rvalue_expr(rv, x))))
@@ -87,6 +96,22 @@ def trivially_joins(f, a, b, limit=8):
         return None
     if sorted(set(ma)) != sorted(set(mb)):
         return None
+    if dataless:
+        # nothing after the join may branch on which way the loop was left
+        seen, todo = {common[0]}, [common[0]]
+        while todo:
+            x = todo.pop()
+            t = f.blocks[x]['term']
+            if t['t'] == 'switch' and t['d'].get('o') in ('copy', 'move') and t['d']['pl']['l'] in dataless:
+                return None
+            for st in f.blocks[x]['stmts']:
+                if st['s'] == 'assign' and not st['pl']['p'] and ((st['rv']['r'] == 'use' and st['rv']['a'].get('o') in ('copy', 'move') and st['rv']['a']['pl']['l'] in dataless) or
+                                                                  (st['rv']['r'] == 'discr' and st['rv']['pl']['l'] in dataless)):
+                    dataless.add(st['pl']['l'])
+            for y in f.succ[x]:
+                if y not in seen and y in f.reach:
+                    seen.add(y)
+                    todo.append(y)
     return common[0]
 
 
